@@ -290,6 +290,14 @@ class History:
             if pid in self.out.get(ns, {}):
                 return self.fail('ack id %r reused while outstanding on %r'
                                  % (pid, ns), {'op': op})
+            if pid in self.used.get(ns, ()):
+                # (see C06: "repeated ACKs are ignored" needs ids that are
+                # never issued twice on one connection and namespace)
+                return self.fail('ack id %r was issued again on %r after it '
+                                 'had been used on this connection: a '
+                                 'repeated acknowledgement of the earlier '
+                                 'event would complete this callback'
+                                 % (pid, ns), {'op': op})
             self.out.setdefault(ns, {})[pid] = tok
         elif pid is not None:
             return self.fail('emit without callback carries id %r' % pid,
